@@ -837,13 +837,17 @@ def check_parallel_writers(ctx):
     # writers change their working directory
     if bad is None:
         cwd = os.getcwd()
-        for case in ("13 writers", "relative root + chdir",
+        real_cpu_count = os.cpu_count
+        for case in ("13 writers", "13 writers, os.cpu_count() == 4",
+                     "relative root + chdir",
                      "relative root + chdir, single process"):
             n_eval += 1
             with C.tmpdir() as tmp:
                 try:
                     os.chdir(tmp)
-                    if case == "13 writers":
+                    if case.endswith("== 4"):
+                        os.cpu_count = lambda: 4       # a small machine
+                    if case.startswith("13 writers"):
                         d = C.mk_dataset(tmp / "par", "fb", "", eps=2)
                         # every writer fills BOTH splits: the updates
                         # reach the description interleaved (train, test,
@@ -866,7 +870,8 @@ def check_parallel_writers(ctx):
                         feed_writer=_tag_feed, custom_arguments=args,
                         single_process=sp_, consistency_check=True)
                     os.chdir(tmp)
-                    root = tmp / ("par" if case == "13 writers" else "rel/par")
+                    root = tmp / ("par" if case.startswith("13 writers")
+                                  else "rel/par")
                     want = {sp: [i for a in args
                                  for i in a[0].get(sp, [])]
                             for sp in ("train", "test")}
@@ -889,6 +894,7 @@ def check_parallel_writers(ctx):
                     problems = ["failed: " + repr(e)[:300]]
                 finally:
                     os.chdir(cwd)
+                    os.cpu_count = real_cpu_count
                 if problems:
                     bad = dict(case=case, problems=problems[:5])
                     break
@@ -1070,6 +1076,22 @@ def check_digests(ctx):
                     walk(c)
             for sli in info["splits"].values():
                 walk(sli)
+            # a continued session whose body raises after some writes (the
+            # caller catches it): whatever the description then says, every
+            # recorded checksum is the digest of the file it names
+            if rec_bad is None:
+                try:
+                    with d.filler() as fl:
+                        for i in range(20, 23):
+                            fl.write_example(values=C.example(i), split="train")
+                        raise KeyboardInterrupt("user stops the session")
+                except KeyboardInterrupt:
+                    pass
+                info = json.loads((root / "dataset_info.json").read_text())
+                for sli in info["splits"].values():
+                    walk(sli)
+                if rec_bad is not None:
+                    rec_bad["after"] = "a session whose body raised"
             # metadata files whose character count and byte count differ
             # (non-ASCII text) and straddle a multiple of the read buffer:
             # a digest of a prefix / of re-encoded text would show here
